@@ -16,6 +16,7 @@ import (
 	"math/rand/v2"
 	"os"
 	"path/filepath"
+	"runtime"
 	"runtime/debug"
 	"sort"
 	"strconv"
@@ -65,21 +66,22 @@ type Run struct {
 	start time.Time
 	mu    sync.Mutex
 
-	evaluations       int64
-	digests           map[uint64]struct{}
-	samples           []any
-	counters          map[string]int64
-	maxima            map[string]float64
-	violations        []violation
-	known             map[string]knownEntry
-	knownHits         map[string]int64
-	inconclusive      int64
-	onlyCase          int
-	slowViolatedCases int
-	curCase           int
-	verbose           bool
-	extra             map[string]any
-	replaysWritten    int
+	evaluations          int64
+	digests              map[uint64]struct{}
+	samples              []any
+	counters             map[string]int64
+	maxima               map[string]float64
+	violations           []violation
+	known                map[string]knownEntry
+	knownHits            map[string]int64
+	inconclusive         int64
+	onlyCase             int
+	slowViolatedCases    int
+	watchdogInconclusive bool
+	curCase              int
+	verbose              bool
+	extra                map[string]any
+	replaysWritten       int
 }
 
 // Thorough reports whether the tier is "thorough".
@@ -106,6 +108,12 @@ func New(id, level string) *Run {
 	if s := os.Getenv("VERIF_SEED"); s != "" {
 		if v, err := strconv.ParseInt(s, 10, 64); err == nil {
 			seed = v
+		}
+	}
+	if os.Getenv("VERIF_CASE_WATCHDOG") == "" {
+		CaseWatchdog = 5 * time.Minute // quick-tier cases take well under a minute
+		if tier == "thorough" {
+			CaseWatchdog = 15 * time.Minute
 		}
 	}
 	r := &Run{ID: id, Tier: tier, Seed: seed, Level: level, start: time.Now(),
@@ -165,6 +173,21 @@ func (r *Run) Rng(stream string, idx int) *rand.Rand {
 
 // Cases runs n cases of a named stream. body gets the case index and its PRNG.
 // A panic inside body is recorded as a violation with signature "panic".
+// CaseWatchdog bounds one case (VERIF_CASE_WATCHDOG seconds overrides it); DeadlockClassifier decides whether a
+// goroutine dump proves a deadlock inside comet (set by the monitor package).
+var (
+	CaseWatchdog       = 10 * time.Minute
+	DeadlockClassifier func(dump string) bool
+)
+
+func init() {
+	if s := os.Getenv("VERIF_CASE_WATCHDOG"); s != "" {
+		if v, err := strconv.Atoi(s); err == nil && v > 0 {
+			CaseWatchdog = time.Duration(v) * time.Second
+		}
+	}
+}
+
 func (r *Run) Cases(stream string, n int, body func(i int, rng *rand.Rand)) {
 	for i := 0; i < n; i++ {
 		if r.onlyCase >= 0 && i != r.onlyCase {
@@ -219,6 +242,29 @@ func (r *Run) runCase(stream string, i int, body func(i int, rng *rand.Rand)) {
 		}
 		r.mu.Unlock()
 	}()
+	// Per-case watchdog: most monitors call straight into comet without a watchdog of their own, so a tree that
+	// deadlocks (a leaked lock, a semaphore never released) would simply hang the check until the driver's time limit
+	// and leave no verdict. After CaseWatchdog the goroutine dump is taken: every goroutine inside comet parked on a
+	// sync primitive = a proven deadlock = violation; anything else = inconclusive. Either way the run ends here (the
+	// stuck goroutine cannot be recovered): evidence is written and the process exits with the verdict.
+	wd := time.AfterFunc(CaseWatchdog, func() {
+		buf := make([]byte, 4<<20)
+		dump := string(buf[:runtime.Stack(buf, true)])
+		if DeadlockClassifier != nil && DeadlockClassifier(dump) {
+			if len(dump) > 16000 {
+				dump = dump[:16000]
+			}
+			r.ViolationAt(stream, i, "hang.deadlock", fmt.Sprintf("case %s/%d did not finish within %s and every goroutine inside comet is parked on a sync primitive", stream, i, CaseWatchdog), map[string]any{"goroutine_dump": dump})
+		} else {
+			fmt.Printf("case %s/%d did not finish within %s; no provable wait cycle inside comet\n", stream, i, CaseWatchdog)
+			r.Inconclusive("case watchdog fired without a provable deadlock")
+			r.mu.Lock()
+			r.watchdogInconclusive = true
+			r.mu.Unlock()
+		}
+		os.Exit(r.Finish())
+	})
+	defer wd.Stop()
 	// one descriptor per case in flight (cases of one stream may run in parallel): whatever is still there when the
 	// process dies is a case that had not finished
 	cur := filepath.Join(Root(), "evidence", ".current", fmt.Sprintf("%s.%s.%d.json", r.ID, stream, i))
@@ -456,6 +502,9 @@ func (r *Run) Finish() int {
 		}
 		fmt.Printf("violations total=%d\n", len(r.violations))
 		code = 1
+	} else if r.watchdogInconclusive {
+		fmt.Printf("INCONCLUSIVE property=%s a case ran into the per-case watchdog without a provable deadlock; the run was cut short\n", r.ID)
+		code = 2
 	} else if r.onlyCase < 0 && (len(r.digests) < r.MinNontrivial || len(missing) > 0) {
 		fmt.Printf("INCONCLUSIVE property=%s distinct_nontrivial=%d (min %d) missing-observations=%v\n",
 			r.ID, len(r.digests), r.MinNontrivial, missing)
